@@ -215,6 +215,12 @@ pub fn int_values(t: usize, level: Level, extra: &[i128]) -> Vec<i128> {
     for v in -12..=12 {
         add(v);
     }
+    if t < 2 && level != Level::Quick {
+        // every value of the 8-bit types
+        for v in -128..=255 {
+            add(v);
+        }
+    }
     let mut k = 1;
     while k <= 38 {
         add(pow10(k));
